@@ -105,8 +105,8 @@ func (g *Gzip) OnUnpack(src []byte) (dest []byte, err error) {
 	err = gr.Reset(bytes.NewReader(src))
 	if err == nil {
 		dest, err = ioutil.ReadAll(gr)
+		gr.Close()
 	}
-	gr.Close()
 	g.rPool.Put(gr)
 	return dest, err
 }
